@@ -138,15 +138,17 @@ def check_response(iface, schedule, ping_interval=0.05):
     except UnicodeDecodeError as e:
         return v + ["stream does not decode: %r" % e]
     got = eventsource_parse(text)
-    want = [expected_event(ev) for _, ev in SNAP if "data" in ev]
-    # retry is a reconnection hint of the block that carries it; id persists (last event id) - compare what the statement
-    # names: data, event name, id as set so far, in order
+    # retry is a reconnection hint of the block that carries it; id persists (last event id) also when it comes in a block
+    # without data (which dispatches nothing, like the empty event {}) - compare what the statement names: data, event
+    # name, id as set so far, in order
     last = None
     want2 = []
-    for w in want:
-        if w["id"] is not None:
-            last = w["id"]
-        want2.append((w["data"], w["event"], last))
+    for _, ev in SNAP:
+        if ev.get("id") is not None and "\0" not in str(ev["id"]):
+            last = ev["id"]
+        if "data" in ev:
+            w = expected_event(ev)
+            want2.append((w["data"], w["event"], last))
     got2 = [(g["data"], g["event"], g["id"]) for g in got]
     if got2 != want2:
         v.append("%s: yielded %d events, decoded %d: %r != %r" % (iface, len(want2), len(got2), got2[:6], want2[:6]))
@@ -163,6 +165,9 @@ SCHEDULES = [
     [(0, {"data": "one"}), (0, {"data": "two", "id": "2"}), (0, {"data": "three\nlines", "event": "upd"})],
     [(0, {"data": "first"}), (0.16, {"data": "second", "id": "2"}), (0, {"data": "third"}), (0.16, {"data": "fourth", "event": "e"})],
     [(0.16, {"data": "after a quiet start"}), (0.16, {"data": "and another"})],
+    # events without data (legal: total=False TypedDict; they dispatch nothing) must not end or disturb the stream
+    [(0, {"data": "a"}), (0, {}), (0, {"data": "b", "id": "7"}), (0, {"id": "9"}), (0, {"data": "c"}), (0, {"retry": 1500}), (0, {"data": "d"})],
+    [(0, {}), (0, {"data": "after an empty first event"})],
     [(0, {"data": "a\rb\r\nc"}), (0.12, {"data": ""}), (0, {"data": "x", "retry": 10})],
     [],
 ]
